@@ -91,7 +91,7 @@ def run(tier, seed):
             chk.violation("C36: callbacks %s, expected one NXDOMAIN" % errs, {"scenario": sc, "actual": o})
             continue
         for j, p in enumerate(pk):
-            names = [res["names"][j]] if (res["k"] == "seq" or j == 0) else res["names"]
+            names = [res["names"][j]] if (res["k"] == "seq" or (j == 0 and res["k"] == "first")) else res["names"]
             vecs.append({"kind": "query", "b": list(bytes.fromhex(p)), "names": names, "type": s["type"], "randcase": s["randcase"], "edns": s["edns"]})
             owner.append((i, j))
     chk.cov["verdicts"] = kinds
